@@ -55,6 +55,14 @@ def as_str(op):
     return ("as_str", op)
 
 
+def as_iter(op):
+    return ("as_iter", op)
+
+
+def crawl_alias(src, tg1, tg2):
+    return ("crawl_alias", src, tuple(tg1), tuple(tg2))
+
+
 REOPEN = ("reopen",)
 OBS = ("obs",)
 
